@@ -29,6 +29,8 @@ spec -> code : TLC emits, for every basis field (and pair sums in thorough), the
                Second step: the operators are applied to the RESULT OBJECTS of the operators (curl curl, grad div, div grad,
                div curl, curl grad; FieldOps!Composition says the result is a field of the same system) and compared with
                the model at the points; a result bound to another coordinate system than its argument is a violation.
+               Fields with a free parameter as coefficient (FieldOps!ParamNames: symbols named like coordinates of the
+               three systems, and one that is not) must give the operator of the scaled field (FieldOps!Homogeneous).
 code -> spec : every value the real operators returned at a point for a polynomial field is written to a JSON
                trace; spec/FieldOpsTrace.tla lets TLC recompute it from the coefficient maps (Pad, Grad, Div,
                Curl, PEval) and reject differing records.  The verdict on those is TLC's.
@@ -57,7 +59,7 @@ TIERS = {
                      emit=dict(D=3, MaxDeg=3, MaxTerms=2, EmitDeg=3, EmitTerms=2),
                      curv_deg=3, generic=True, call_limit=60),
 }
-MODEL_INVARIANTS = ["TypeOK", "CurlGradZero", "DivCurlZero", "MixedPartials", "Leibniz", "ShiftEval", "Composition"]
+MODEL_INVARIANTS = ["TypeOK", "CurlGradZero", "DivCurlZero", "MixedPartials", "Leibniz", "ShiftEval", "Composition", "Homogeneous"]
 TRACE_D = 4
 
 CS = {}
@@ -84,6 +86,7 @@ def _init():
 
 
 def _use(label):
+    CUR["label"] = label
     cls, types = _types()
     for name, t in types.items():
         CUR[name] = cls(t) if label == "new" else CS[name][label]
@@ -245,6 +248,42 @@ def _compositions(out, case, system, kind, comps, name, pts):
             _compare(out, f"{op}:{system}:{name}", op, comps, info, pt, obs, exp)
 
 
+def _scaled(comps, c):
+    return [[[e, fc.pair_of(fc.rat(v) * c)] for e, v in t] for t in comps]
+
+
+def _parametrised(out, case, system, kind, comps, name, pts):
+    """The field with a free parameter as coefficient (symbols named like coordinates, and one that is not): the result,
+    with the parameter given its values AFTER the operator call, must be the operator of the scaled field."""
+    q = scalars(system)
+    info = {"sys": system, "route": "param"}
+    vals = [fc.rat(v) for v in case["pvals"]]
+    own = {"cart": ("x", "y", "z"), "cyl": ("r", "theta", "z"), "sph": ("r", "theta", "phi")}[system]
+    for pname in case["pnames"]:
+        a = sp.Symbol(pname)
+        ops = ("grad",) if kind == "s" else (("div", "curl") if pname in (own[0], own[2], "a") else ())
+        for op in ops:
+            key = f"{op}:{system}:{pname}*{name}"
+            if kind == "s":
+                res = _call(out, key, lambda: lib_grad(system, lambda qq: a * fc.scalar_in(system, comps[0], qq)))
+            elif op == "div":
+                res = _call(out, key, lambda: lib_div(system, lambda qq: [a * c for c in fc.vector_in(system, comps, qq)]))
+            else:
+                res = _call(out, key, lambda: lib_curl(system, lambda qq: [a * c for c in fc.vector_in(system, comps, qq)]))
+            if res is None:
+                continue
+            for k, pt in enumerate(pts):
+                if op == "div":
+                    sym = [fc.eval_at(res, system, q, pt)]
+                    model = [fc.rat(case["div"][k])]
+                else:
+                    sym = fc.rotate_back(system, [fc.eval_at(c, system, q, pt) for c in res], pt)
+                    model = _rat_list(case[op][k])
+                for c in vals:
+                    obs = [sp.sympify(v).subs(a, c) for v in sym]
+                    _compare(out, key, op, _scaled(comps, c), info, pt, obs, [c * m for m in model])
+
+
 def replay_emit(case):
     if not CS:
         _init()
@@ -264,6 +303,8 @@ def replay_emit(case):
                 _compare(out, key, "grad", [comps[0]], {"sys": system, "route": "a" if system == "cart" else "b"},
                          pt, obs, _rat_list(case["grad"][k]))
             _compositions(out, case, system, "s", [comps[0]], name, pts)
+            if CUR.get("first") and len(case["terms"]) == 1:
+                _parametrised(out, case, system, "s", [comps[0]], name, pts)
         return out.result()
     used = [i + 1 for i, c in enumerate(comps) if c]
     # (a) Cartesian system, 0..3 components given
@@ -309,6 +350,8 @@ def replay_emit(case):
                 _compare(out, key, op, comps, {"sys": system, "route": "b"}, pt, obs, exp)
     for system in SYSTEMS:
         _compositions(out, case, system, "v", comps, name, pts)
+        if CUR.get("first") and len(case["terms"]) == 1:
+            _parametrised(out, case, system, "v", comps, name, pts)
     return out.result()
 
 
@@ -544,8 +587,9 @@ def replay_any(case):
     if not CS:
         _init()
     merged = None
-    for label in case.get("passes") or PASSES:
+    for i, label in enumerate(case.get("passes") or PASSES):
         _use(label)
+        CUR["first"] = i == 0
         res = _replay_one(case)
         for r in res["records"]:
             r["inst"] = label
